@@ -761,3 +761,54 @@ func callCommonsOf(c *Ctx, fn *ssa.Function) []*ssa.CallCommon {
 	}
 	return out
 }
+
+// lvar: a local variable as rules see it - a (possibly captured) local, or one field of a local struct variable (refactorings
+// like to group related locals into a small struct). Comparable.
+type lvar struct {
+	cell  *ssa.Alloc
+	field string
+}
+
+func (v lvar) ok() bool { return v.cell != nil }
+
+// lvarOf: the variable an address denotes.
+func lvarOf(addr ssa.Value) lvar {
+	if cell := cellOf(addr); cell != nil {
+		return lvar{cell: cell}
+	}
+	if fa, ok := addr.(*ssa.FieldAddr); ok {
+		if cell := cellOf(fa.X); cell != nil {
+			if _, isStruct := cell.Type().(*types.Pointer).Elem().Underlying().(*types.Struct); isStruct {
+				return lvar{cell: cell, field: fieldName(fa.X.Type(), fa.Field)}
+			}
+		}
+	}
+	return lvar{}
+}
+
+// loadVar: v is a load of a variable → that variable.
+func loadVar(v ssa.Value) lvar {
+	if ld, ok := v.(*ssa.UnOp); ok && ld.Op == token.MUL {
+		return lvarOf(ld.X)
+	}
+	return lvar{}
+}
+
+// storesToVar: every store to the variable, in the function that declares it and in the closures nested there.
+func storesToVar(v lvar) []*ssa.Store {
+	if !v.ok() {
+		return nil
+	}
+	if v.field == "" {
+		return storesTo(v.cell)
+	}
+	var out []*ssa.Store
+	for _, f := range withAnon(v.cell.Parent()) {
+		instrs(f, func(b *ssa.BasicBlock, i int, in ssa.Instruction) {
+			if st, ok := in.(*ssa.Store); ok && lvarOf(st.Addr) == v {
+				out = append(out, st)
+			}
+		})
+	}
+	return out
+}
